@@ -674,8 +674,9 @@ pub fn run_sweep(name: &str, tier: &str, chunk: u64, nchunks: u64, res: &mut Wor
                 pts.sort();
                 pts.dedup();
                 // the key held a longer and a shorter value before: a size recorded for an earlier value must not leak
-                let _ = check_range(&mut ctx, l + 17, 0, 1);
                 let _ = check_range(&mut ctx, l / 2, 0, 1);
+                let _ = check_range(&mut ctx, l + 17, 0, 1);
+                // (the key now holds l+17 bytes, so the value of length l is about to be written afresh)
                 // and a stale file with other bytes sits at the path the value is going to get (left by an earlier crash)
                 if l <= 20_000 {
                     let p = ctx.dir.join("cas").join(ondisk::path_of_hash(&b3(&pattern(l))));
@@ -908,8 +909,8 @@ pub fn replay(case: &Value) -> Vec<Violation> {
             let i = &case["input"];
             let l = i["L"].as_u64().unwrap() as usize;
             // reproduce the overwrite context: a longer and a shorter value were stored under the same key before
-            let _ = check_range(&mut ctx, l + 17, 0, 1);
             let _ = check_range(&mut ctx, l / 2, 0, 1);
+            let _ = check_range(&mut ctx, l + 17, 0, 1);
             if l <= 20_000 {
                 let p = ctx.dir.join("cas").join(ondisk::path_of_hash(&b3(&pattern(l))));
                 std::fs::create_dir_all(p.parent().unwrap()).unwrap();
